@@ -448,6 +448,45 @@ pub fn hostile(args: &[String]) {
             }
         }
     }
+    overflow_family();
+}
+
+/// finite right-hand sides whose solution leaves the range of f64 before xend: 0: y' = c, 1: y' = c y, 2: y' = c x
+struct Overflow<'a> { which: usize, c: f64, calls: &'a std::cell::Cell<usize> }
+impl<'a> IVP for Overflow<'a> {
+    fn ode(&self, x: f64, y: &[f64], d: &mut [f64]) {
+        self.calls.set(self.calls.get() + 1);
+        if self.calls.get() > 3_000_000 { panic!("work budget exceeded"); }
+        d[0] = match self.which { 0 => self.c, 1 => self.c * y[0], _ => self.c * x };
+    }
+}
+
+/// C04: the solution overflows before xend (the right-hand side itself stays finite); no error-controlled method may
+/// report Success with non-finite states
+fn overflow_family() {
+    let mut k = 0;
+    for method in ADAPTIVE {
+        for (which, c, y0, xend) in [(0usize, 1e308, 0.0, 10.0), (0, -1e308, 0.0, -10.0), (0, 1e308, 0.0, -10.0), (2, 1e306, 0.0, 100.0), (1, 1e3, 1.0, 10.0), (1, 700.0, 1.0, 2.0), (0, 1e300, 1.0, 1e9)] {
+            for first in [None, Some(1.0), Some(0.25), Some(xend)] {
+                let o = { let mut o = Options::builder().method(method).build(); o.first_step = first.map(|h: f64| h.abs()); o };
+                let calls = std::cell::Cell::new(0usize);
+                let f = Overflow { which, c, calls: &calls };
+                let res = catch_unwind(AssertUnwindSafe(|| solve_ivp(&f, 0.0, xend, &[y0], o)));
+                let (mut why, mut key, mut extra) = (String::new(), "", String::new());
+                match res {
+                    Err(_) => { why = "solve_ivp panicked or did not finish within 3e6 right-hand-side calls".into(); key = "c04-hang-or-panic"; }
+                    Ok(Err(_)) => { extra = "\"status\":\"Err\",".into(); }
+                    Ok(Ok(sol)) => {
+                        extra = format!("\"status\":\"{:?}\",\"n\":{},", sol.status, sol.t.len());
+                        if sol.status == Status::Success && !sol.y.iter().all(|v| finite(v)) { why = format!("Success with non-finite states: t = {:?}, last y = {:?}", sol.t, sol.y.last()); key = "c04-overflow-success"; }
+                    }
+                }
+                println!("{{\"kind\":\"hs\",\"case\":{},\"problem\":\"overflow {} c={:e}\",\"method\":\"{}\",\"x0\":0,\"xend\":{},\"first_step\":{},\"branch\":\"overflow\",\"finding_key\":\"{}\",{}\"ok\":{},\"why\":{:?}}}",
+                    450000 + k, ["y'=c", "y'=c*y", "y'=c*x"][which], c, method_name(method), jnum(xend), first.map(jnum).unwrap_or("null".into()), key, extra, why.is_empty(), why);
+                k += 1;
+            }
+        }
+    }
 }
 
 /// 0: draining tank y' = -sqrt(y) (NaN for y < 0);  1: y' = sign * y, NaN once y > 2.  Default finite-difference Jacobian.
